@@ -21,7 +21,7 @@ __CPROVER_assigns(lp->p.p_msgs.count, verif_rb_calls, verif_rb_arg)
 __CPROVER_ensures(array_count(lp->p.p_msgs) == past_i && verif_rb_calls == __CPROVER_old(verif_rb_calls) + 1 && verif_rb_arg == past_i)
 ;
 #endif
-#define NM (NH + 2) /* messages: one per history slot + the incoming one + one the model may schedule */
+#define NM (NH + 6) /* messages: one per history slot + incoming / scheduled / early anti-messages */
 
 /* ------------------------------------------------------------------ environment state */
 struct simulation_configuration global_config;
@@ -528,4 +528,90 @@ void h_lp_fini(void)
 		VASSERT(freed[g] == (((fg & MSG_FLAG_ANTI) && fg <= 3) ? 0U : 1U),
 		    "C06.fini a processed event is released once unless its sender cancelled it (then the re-queued copy is released from the queue)");
 	VCANARY("h_lp_fini reachable");
+}
+
+/* ------------------------------------------------------------------ remote anti-messages (C06: "not yet arrived from another rank") */
+#define NEA 3
+/* check_early_anti_messages: matching is by the full (id, seq) pair; exactly the matched node is unlinked */
+void h_early_anti(void)
+{
+	HIST_SETUP();
+	VIN(unsigned, n_early);
+	VIN_ARR(uint32_t, e_id, NEA);
+	VIN_ARR(uint32_t, e_seq, NEA);
+	VIN(uint32_t, m_id);
+	VIN(uint32_t, m_seq);
+	VIN(unsigned, g);
+	VASSUME(n_early >= 1 && n_early <= NEA && g < n_early);
+	struct lp_msg *ea[NEA];
+	struct lp_msg *head = NULL;
+	for(unsigned k = NEA; k > 0; k--)
+		if(k - 1 < n_early) {
+			ea[k - 1] = new_msg(1.0, e_id[k - 1], 0);
+			ea[k - 1]->m_seq = e_seq[k - 1];
+			ea[k - 1]->next = head;
+			head = ea[k - 1];
+		}
+	lps[0].p.early_antis = head; /* list order: ea[0], ea[1], ... */
+	struct lp_msg *msg = new_msg(2.0, m_id, 0);
+	msg->m_seq = m_seq;
+	unsigned first = NEA;
+	for(unsigned k = NEA; k > 0; k--)
+		if(k - 1 < n_early && e_id[k - 1] == m_id && e_seq[k - 1] == m_seq)
+			first = k - 1;
+	bool r = check_early_anti_messages(&lps[0].p, msg);
+	VASSERT(r == (first < NEA), "C06.early an event is annihilated exactly when an early anti-message with the same (id, sequence) pair is pending");
+	VASSERT(freed[idx(msg)] == (r ? 1U : 0U), "C06.early the annihilated event is released exactly once, a surviving one is not");
+	VASSERT(freed[idx(ea[g])] == ((r && g == first) ? 1U : 0U), "C06.early exactly the matched anti-message is released");
+	/* the list keeps every other pending anti-message, in order */
+	struct lp_msg *cur = lps[0].p.early_antis;
+	for(unsigned k = 0; k < NEA; k++)
+		if(k < n_early && !(r && k == first)) {
+			VASSERT(cur == ea[k], "C06.early every other pending anti-message stays in the list (nothing is dropped)");
+			cur = cur ? cur->next : NULL;
+		}
+	VASSERT(cur == NULL, "C06.early the list holds nothing else");
+	VCANARY("h_early_anti reachable");
+	VCOVER(r && first == 1 && n_early == 3, "h_early_anti covers a match in the middle of the list");
+}
+
+/* handle_remote_anti_msg: found in the history -> one rollback to the start of its group, both buffers released;
+ * not found -> parked as early anti-message, nothing released, no rollback (do_rollback by contract) */
+void h_remote_anti(void)
+{
+	HIST_SETUP();
+	VIN_ARR(uint32_t, in_seq, NM);
+	VIN(uint32_t, a_id);
+	VIN(uint32_t, a_seq);
+	VIN(unsigned, g);
+	VASSUME(g < n_hist && a_id > 3 && (a_id & 3U) == 0);
+	for(unsigned k = 0; k < NH; k++)
+		if(k < n_hist)
+			M[k]->m_seq = in_seq[k];
+	/* as process_msg hands it over: id | ANTI | PROCESSED */
+	struct lp_msg *am = new_msg(in_t[NH], a_id | MSG_FLAG_ANTI | MSG_FLAG_PROCESSED, 0);
+	am->m_seq = a_seq;
+	VASSUME(in_t[NH] == in_t[NH]);
+	unsigned ai = idx(am);
+	n_unknown = 0;
+	unsigned match = NH;
+	for(unsigned k = 0; k < NH; k++) /* the newest matching processed entry */
+		if(k < n_hist && IS_PAST(k) && in_flags[k] == (a_id | MSG_FLAG_PROCESSED) && in_seq[k] == a_seq)
+			match = k;
+	verif_rb_calls = 0;
+	handle_remote_anti_msg(&lps[0], am);
+	if(match == NH) {
+		VASSERT(lps[0].p.early_antis == am && am->next == NULL, "C06.remote_anti an anti-message that arrives before its event is parked");
+		VASSERT(verif_rb_calls == 0 && freed[ai] == 0 && freed[g] == 0 && term_rb_calls == 0, "C06.remote_anti a parked anti-message causes no rollback and releases nothing");
+	} else {
+		VASSERT(verif_rb_calls == 1 && verif_rb_arg <= match && BOUNDARY(verif_rb_arg), "C06.remote_anti one rollback to an event boundary at or before the cancelled event");
+		for(unsigned k = 0; k < NH; k++)
+			if(k < match && k >= verif_rb_arg)
+				VASSERT(!IS_PAST(k), "C06.remote_anti no other processed event is undone needlessly");
+		VASSERT(freed[match] == 1 && freed[ai] == 1, "C06.remote_anti the cancelled event and the anti-message are each released exactly once");
+		VASSERT(g == match || freed[g] == 0, "C06.remote_anti nothing else is released");
+		VASSERT(term_rb_calls == 1 && term_rb_t == M[match]->dest_t, "C07.remote_anti the rollback is reported to termination detection with the cancelled event's time");
+	}
+	VCANARY("h_remote_anti reachable");
+	VCOVER(match < NH && match > 0, "h_remote_anti covers a match in the history");
 }
